@@ -222,6 +222,223 @@ inline HermRecipe make_herm(Draw& d, bool complex, Index nmin, Index nmax, int m
     return r;
 }
 
+// ---------------------------------------------------------------------------------------------------------
+// General real matrix recipe. For the "prescribed" classes the spectrum (closed under conjugation) and the
+// conditioning of the eigenvector basis are known by construction.
+struct GenRecipe
+{
+    Index n = 0;
+    int cls = 0;
+    ld scale = 1;
+    long scale_exp = 0;
+    MatL A;                    // in the user's scaling, exactly representable in the scalar type
+    bool prescribed = false;   // spectrum known by construction (before rounding)
+    std::vector<cld> ev;       // prescribed eigenvalues (user's scaling)
+    ld condS = 1;              // condition number of the eigenvector basis (1 for normal matrices)
+    std::string name;
+};
+static const char* const GEN_CLASS_NAMES[11] = {"dense_random", "normal_prescribed", "skew_symmetric", "orthogonal_345", "permutation", "triangular",
+                                                "companion", "low_rank", "block_diagonal", "few_distinct_normal", "SDSinv_cond<=100"};
+
+// real block-diagonal D with 1x1 blocks (real eigenvalues) and 2x2 blocks [a b; -b a] (a +- ib)
+inline MatL real_block_diag(const std::vector<cld>& ev_half, Index n, std::vector<cld>& ev_out)
+{
+    MatL D = MatL::Zero(n, n);
+    Index i = 0;
+    ev_out.clear();
+    for (const cld& e : ev_half)
+    {
+        if (i >= n)
+            break;
+        if (e.imag() != 0 && i + 1 < n)
+        {
+            D(i, i) = e.real();
+            D(i + 1, i + 1) = e.real();
+            D(i, i + 1) = e.imag();
+            D(i + 1, i) = -e.imag();
+            ev_out.push_back(cld(e.real(), std::abs(e.imag())));
+            ev_out.push_back(cld(e.real(), -std::abs(e.imag())));
+            i += 2;
+        }
+        else
+        {
+            D(i, i) = e.real();
+            ev_out.push_back(cld(e.real(), 0));
+            i += 1;
+        }
+    }
+    for (; i < n; i++)
+    {
+        D(i, i) = 0;
+        ev_out.push_back(cld(0, 0));
+    }
+    return D;
+}
+
+template <typename S>
+inline GenRecipe make_gen(Draw& d, Index nmin, Index nmax)
+{
+    GenRecipe r;
+    r.cls = (int) d.range("matrix_class", 0, 10);
+    r.n = (Index) d.dim("n", nmin, nmax);
+    const Index n = r.n;
+    Lcg g((uint64_t) d.range("content_seed", 0, 65535));
+    MatL A = MatL::Zero(n, n);
+    auto draw_half_spectrum = [&](bool few, bool separated) {
+        // eigenvalue seeds: about a third complex pairs; `separated`: keys |lambda| spaced >= 2 % so the spectrum is simple
+        std::vector<cld> h;
+        Index used = 0;
+        int k = 0;
+        ld fewv[3][2] = {{g.u(), g.u()}, {g.u(), 0}, {g.u(), g.u()}};
+        while (used < n)
+        {
+            cld e;
+            if (few)
+            {
+                int j = (int) g.below(3);
+                e = cld(fewv[j][0], fewv[j][1]);
+            }
+            else if (separated)
+            {
+                ld rad = (ld) 0.3 + (ld) 0.7 * (ld) (k + 1) / (ld) (n + 1);  // distinct moduli
+                ld ang = (g.below(3) == 0) ? (ld) (0.3 + 2.4 * (double) (g.below(1000) / 1000.0)) : (g.below(2) ? 0 : (ld) 3.14159265358979323846L);
+                e = cld(rad * std::cos(ang), rad * std::sin(ang));
+                if (std::abs(e.imag()) < (ld) 1e-3)
+                    e = cld(e.real(), 0);
+            }
+            else
+                e = (g.below(3) == 0) ? cld(g.u(), g.u()) : cld(g.u(), 0);
+            h.push_back(e);
+            used += (e.imag() != 0 && used + 1 < n) ? 2 : 1;
+            k += (e.imag() != 0) ? 2 : 1;
+        }
+        return h;
+    };
+    switch (r.cls)
+    {
+        case 0:
+            for (Index j = 0; j < n; j++)
+                for (Index i = 0; i < n; i++)
+                    A(i, j) = g.u();
+            break;
+        case 1:
+        case 9:
+        {
+            std::vector<cld> h = draw_half_spectrum(r.cls == 9, r.cls == 1);
+            MatL D = real_block_diag(h, n, r.ev);
+            MatL Q = random_orthogonal(n, g);
+            A = Q * D * Q.transpose();
+            r.prescribed = true;
+            break;
+        }
+        case 2:
+            for (Index j = 0; j < n; j++)
+                for (Index i = j + 1; i < n; i++)
+                {
+                    A(i, j) = g.u();
+                    A(j, i) = -A(i, j);
+                }
+            break;
+        case 3:  // orthogonal: product of exact 3-4-5 Givens rotations and signed permutations (all |lambda| = 1)
+        {
+            A = MatL::Identity(n, n);
+            int nrot = 1 + (int) g.below(2 * n);
+            for (int k = 0; k < nrot; k++)
+            {
+                Index p = g.below(n), q = g.below(n);
+                if (p == q)
+                    continue;
+                MatL G = MatL::Identity(n, n);
+                ld cs = (ld) 0.6, sn = (ld) 0.8;
+                if (g.below(2))
+                    std::swap(cs, sn);
+                G(p, p) = cs;
+                G(q, q) = cs;
+                G(p, q) = sn;
+                G(q, p) = -sn;
+                A = G * A;
+            }
+            if (g.below(2))
+                for (Index i = 0; i < n; i++)
+                    if (g.below(3) == 0)
+                        A.row(i) *= -1;
+            break;
+        }
+        case 4:
+        {
+            std::vector<Index> perm(n);
+            for (Index i = 0; i < n; i++)
+                perm[i] = i;
+            for (Index i = n - 1; i > 0; i--)
+                std::swap(perm[i], perm[g.below(i + 1)]);
+            for (Index i = 0; i < n; i++)
+                A(perm[i], i) = (g.below(4) == 0) ? -1 : 1;
+            break;
+        }
+        case 5:
+            for (Index j = 0; j < n; j++)
+                for (Index i = 0; i <= j; i++)
+                    A(i, j) = (i == j) ? (ld) (g.below(9) - 4) / 2 : g.u();
+            break;
+        case 6:
+            for (Index i = 0; i + 1 < n; i++)
+                A(i + 1, i) = 1;
+            for (Index i = 0; i < n; i++)
+                A(i, n - 1) = (ld) (g.below(9) - 4) / 4;
+            break;
+        case 7:
+        {
+            Index rk = 1 + g.below(2);
+            for (Index k = 0; k < rk; k++)
+            {
+                VecL u(n), w(n);
+                for (Index i = 0; i < n; i++)
+                {
+                    u[i] = (ld) (g.below(5) - 2);
+                    w[i] = (ld) (g.below(5) - 2);
+                }
+                A += u * w.transpose();
+            }
+            break;
+        }
+        case 8:
+        {
+            Index n1 = (n >= 4) ? 1 + g.below(n - 2) : n;
+            for (Index j = 0; j < n; j++)
+                for (Index i = 0; i < n; i++)
+                    if ((i < n1) == (j < n1))
+                        A(i, j) = g.u();
+            break;
+        }
+        default:  // S D S^-1 with cond(S) <= 100
+        {
+            std::vector<cld> h = draw_half_spectrum(false, true);
+            MatL D = real_block_diag(h, n, r.ev);
+            MatL Q1 = random_orthogonal(n, g), Q2 = random_orthogonal(n, g);
+            ld cs = std::pow((ld) 10, (ld) g.below(9) / 4);  // 1 .. 100
+            VecL sv(n);
+            for (Index i = 0; i < n; i++)
+                sv[i] = std::pow(cs, -(ld) i / (ld) std::max<Index>(n - 1, 1));
+            MatL Sm = Q1 * sv.asDiagonal() * Q2.transpose();
+            MatL Si = Q2 * sv.cwiseInverse().asDiagonal() * Q1.transpose();
+            A = Sm * D * Si;
+            r.condS = cs;
+            r.prescribed = true;
+            break;
+        }
+    }
+    d.scale10("scale_exp", max_scale_exp<S>());
+    r.scale_exp = d.scale10_exp_last();
+    r.scale = std::pow((ld) 10, (ld) r.scale_exp);
+    A *= r.scale;
+    for (cld& e : r.ev)
+        e *= r.scale;
+    Eigen::Matrix<S, Eigen::Dynamic, Eigen::Dynamic> As = A.template cast<S>();
+    r.A = As.template cast<ld>();
+    r.name = GEN_CLASS_NAMES[r.cls];
+    return r;
+}
+
 // legal (nev, ncv) for the symmetric family: 1 <= nev <= n-1, nev < ncv <= n ; general family: 1 <= nev <= n-2, nev+2 <= ncv <= n
 inline void draw_nev_ncv(Draw& d, Index n, bool general, Index& nev, Index& ncv)
 {
